@@ -151,6 +151,14 @@ void Sim::rx(const Frame &f) {
   CONodeProcess(node);
   api_end("CONodeProcess");
   if (tx_in_call > 128) c.fail("bounded-tx", "%zu frames sent while processing one received frame", tx_in_call);
+  // the application polls more often than frames arrive: CONodeProcess with nothing to read must not react at all
+  size_t tx0 = tx.size(), ev0 = ev.size();
+  api_begin();
+  CONodeProcess(node);
+  api_end("CONodeProcess");
+  if (tx.size() != tx0 || ev.size() != ev0)
+    c.fail("idle-process-reacts", "CONodeProcess() with no frame pending (called right after the frame %03X had been processed) %s", f.id,
+           tx.size() != tx0 ? ("transmitted " + tx.back().str()).c_str() : "invoked an application callback");
 }
 void Sim::process_empty() { api_begin(); CONodeProcess(node); api_end("CONodeProcess"); }
 int Sim::service() { tick++; api_begin(); int r = COTmrService(&node->Tmr); return r; }
